@@ -157,6 +157,8 @@ def _is_int_dtype(d):
 
 
 def jnp_zeros(I, shape=(), dtype=None):
+    if isinstance(shape, ShapeTok):
+        return zero_like(I, shape.v)
     if shape == () or shape == []:
         return SReal(0.0)
     if isinstance(shape, int):
@@ -389,6 +391,75 @@ def random_key(I, seed):
     return UVal(I.ctx.fn("prng_key", z3.IntSort(), U)(zint(seed)), "key")
 
 
+# ---------------------------------------------------------------------------------- shapes / switch
+class ShapeLeaf:
+    """jax.ShapeDtypeStruct of a leaf: only .shape/.dtype are observable, and only to build zeros of the same kind"""
+
+    def __init__(self, v):
+        self.v = v
+
+    def pyvc_getattr(self, I, name):
+        if name in ("shape", "dtype"):
+            return ShapeTok(self.v, name)
+        raise Unsupported(f"ShapeDtypeStruct.{name}")
+
+
+class ShapeTok:
+    def __init__(self, v, what):
+        self.v, self.what = v, what
+
+
+def zero_like(I, v):
+    if isinstance(v, (bool, SBool)):
+        return SBool(False, False)
+    if isinstance(v, (int, SInt)):
+        return SInt(0, False)
+    if isinstance(v, (float, SReal)):
+        return SReal(0.0)
+    if isinstance(v, UVal):
+        return UVal(I.ctx.fn("zeros_like", U, U)(v.t), v.cls)
+    if isinstance(v, Stacked):
+        return Stacked(v.n, lambda i: zero_like(I, v.at(i)), tag="zeros")
+    raise Unsupported(f"zeros like {type(v).__name__}")
+
+
+def map_leaves(I, f, v):
+    if isinstance(v, TupleT):
+        raise Unsupported("map_leaves over tuple with opaque tail")
+    ch = tree_children(I, v)
+    if ch is None:
+        return f(v)
+    return ch[1]([map_leaves(I, f, c) for c in ch[0]])
+
+
+def eval_shape(I, f, *args, **kwargs):
+    _used("A4: jax.eval_shape(f, *a) returns the pytree structure of f(*a) (f pure, A3); to_shape_fn(.., jnp.zeros) fills it with zeros")
+    r = I.call(f, list(args), kwargs)
+    return map_leaves(I, lambda leaf: ShapeLeaf(leaf), r)
+
+
+def lax_switch(I, idx, fns, *operands, operand=None):
+    _used("A4: lax.switch(i, fs, x) runs fs[clamp(i, 0, len(fs)-1)](x)")
+    ops = list(operands) if operands else [operand]
+    fns = I.iterate(fns)
+    n = len(fns)
+    if n == 0:
+        raise PyRaise("ValueError", ("Empty branch sequence",))
+    def run(k):
+        xs = [list(o) if isinstance(o, list) else o for o in ops]
+        return I.call(fns[k], xs, {})
+    if isinstance(idx, bool):
+        idx = int(idx)
+    if isinstance(idx, int):
+        return run(min(max(idx, 0), n - 1))
+    it = zint(idx)
+    r = run(n - 1)
+    for k in range(n - 2, -1, -1):
+        cond = (it <= 0) if k == 0 else (it == k)
+        r = ite(I, cond, run(k), r)
+    return r
+
+
 # ---------------------------------------------------------------------------------- misc
 def identity(I, x, *a, **k):
     return x
@@ -444,6 +515,8 @@ def install(I):
     e["jax.numpy.shape"] = jnp_shape
     e["jax.numpy.arange"] = jnp_arange
     e["jax.numpy.choose"] = jnp_choose
+    e["jax.eval_shape"] = eval_shape
+    e["jax.lax.switch"] = lax_switch
     for p in ("jax.tree_util.tree_map", "jax.tree.map"):
         e[p] = tree_map
     e["jax.tree_util.tree_leaves"] = tree_leaves
